@@ -7,8 +7,12 @@ instantiated at Float and compared with `tf_pwa.breit_wigner`, `tf_pwa.formula` 
 models on every run), and about the coefficient tables `TfPwaV.BprimeTable` which are re-extracted from the
 source on every run.  The documented formulas are written in Mathlib's `ℂ` (`toC : Cx → ℂ`).
 
-Where the current tree does not satisfy the property the negation is proved: `BWR2_eq_conj_spec`,
-`BWR2_im_neg`, `BWR2_ne_spec_witness`, `BWRLS_nofix_ne_doc`.
+Headline theorems are stated for the functions the current tree implements (`BWR2` = `breit_wigner.BWR2` after
+repository commit a7b0d13, double-precision constants after 6f9a2f7; the `f32` flag of `GS`/`BWRcoupling` is
+universally quantified).  Refutations that stay: the legacy `BWR2` (before a7b0d13) is the complex conjugate of the
+documented formula (`BWR2legacy_eq_conj_spec`, `BWR2legacy_im_neg`, `BWR2legacy_at_m0`,
+`BWR2legacy_ne_spec_witness`), and `BWR_LS` with the default `fix_bug1=False` differs from its documentation
+(`BWRLS_nofix_ne_doc`, listed finding `BWR_LS:width-m-over-m0`).
 -/
 open TfPwaV.ScalarR TfPwaV.BprimeTable TfPwaV.Bessel
 namespace TfPwaV.C15
@@ -206,20 +210,20 @@ theorem bwr2Den_eq (L : ℕ) (m m0 g0 q2 q02 d : ℝ) :
   push_cast
   ring
 
-/-- the patched `BWR2` is the documented `1/(m0² - m² - i m0 Γ(m))`, complex width allowed, all inputs -/
-theorem BWR2fix_eq_spec (L : ℕ) (m m0 g0 q2 q02 d : ℝ) :
-    toC (BWR2fix L m m0 g0 q2 q02 d)
+/-- `BWR2` (current tree) is the documented `1/(m0² - m² - i m0 Γ(m))`, complex width allowed, all inputs -/
+theorem BWR2_eq_spec (L : ℕ) (m m0 g0 q2 q02 d : ℝ) :
+    toC (BWR2 L m m0 g0 q2 q02 d)
       = 1 / ((m0 : ℂ) ^ 2 - (m : ℂ) ^ 2 - Complex.I * m0 * toC (Gamma2 L m g0 q2 q02 m0 d)) := by
   rw [← bwr2Den_eq]
-  unfold BWR2fix
+  unfold BWR2
   exact inv_toC _
 
-/-- FINDING: `BWR2` of the current tree is the complex CONJUGATE of its documented formula, for all inputs -/
-theorem BWR2_eq_conj_spec (L : ℕ) (m m0 g0 q2 q02 d : ℝ) :
-    toC (BWR2 L m m0 g0 q2 q02 d)
+/-- LEGACY (before a7b0d13): `BWR2` was the complex CONJUGATE of its documented formula, for all inputs -/
+theorem BWR2legacy_eq_conj_spec (L : ℕ) (m m0 g0 q2 q02 d : ℝ) :
+    toC (BWR2legacy L m m0 g0 q2 q02 d)
       = (starRingEnd ℂ) (1 / ((m0 : ℂ) ^ 2 - (m : ℂ) ^ 2 - Complex.I * m0 * toC (Gamma2 L m g0 q2 q02 m0 d))) := by
-  rw [← BWR2fix_eq_spec]
-  apply Complex.ext <;> simp [BWR2, BWR2fix, neg_div]
+  rw [← BWR2_eq_spec]
+  apply Complex.ext <;> simp [BWR2legacy, BWR2, neg_div]
 
 /-- above threshold (`q² = q·q`, `q0² = q0·q0`, q ≥ 0 < q0) the complex width is the real `Gamma` -/
 theorem Gamma2_eq_Gamma (L : ℕ) (hL : L ≤ 8) (m g0 q q0 m0 d : ℝ) (hq : 0 ≤ q) (hq0 : eps15 < q0) :
@@ -237,51 +241,57 @@ theorem Gamma2_eq_Gamma (L : ℕ) (hL : L ≤ 8) (m g0 q q0 m0 d : ℝ) (hq : 0 
   · rw [← pow_two, ← pow_mul]; ring
   · ring
 
-/-- hence the patched `BWR2` coincides with `BWR` above threshold (what the `BWR2` docstring claims) … -/
-theorem BWR2fix_eq_BWR (L : ℕ) (hL : L ≤ 8) (m m0 g0 q q0 d : ℝ) (hq : 0 ≤ q) (hq0 : eps15 < q0) :
-    BWR2fix L m m0 g0 (q * q) (q0 * q0) d = BWR L m m0 g0 q q0 d := by
-  unfold BWR2fix bwr2Den BWR
+/-- hence `BWR2` coincides with `BWR` above threshold (what the `BWR2` class docstring claims) … -/
+theorem BWR2_eq_BWR (L : ℕ) (hL : L ≤ 8) (m m0 g0 q q0 d : ℝ) (hq : 0 ≤ q) (hq0 : eps15 < q0) :
+    BWR2 L m m0 g0 (q * q) (q0 * q0) d = BWR L m m0 g0 q q0 d := by
+  unfold BWR2 bwr2Den BWR
   rw [Gamma2_eq_Gamma L hL m g0 q q0 m0 d hq hq0]
   simp [Cx.mul, Cx.sub, Cx.ofReal]
 
-/-- … while the current `BWR2` is the conjugate of `BWR` there -/
-theorem BWR2_eq_conj_BWR (L : ℕ) (hL : L ≤ 8) (m m0 g0 q q0 d : ℝ) (hq : 0 ≤ q) (hq0 : eps15 < q0) :
-    BWR2 L m m0 g0 (q * q) (q0 * q0) d = (BWR L m m0 g0 q q0 d).conj := by
-  unfold BWR2 bwr2Den BWR Cx.conj
+/-- … while the legacy `BWR2` was the conjugate of `BWR` there -/
+theorem BWR2legacy_eq_conj_BWR (L : ℕ) (hL : L ≤ 8) (m m0 g0 q q0 d : ℝ) (hq : 0 ≤ q) (hq0 : eps15 < q0) :
+    BWR2legacy L m m0 g0 (q * q) (q0 * q0) d = (BWR L m m0 g0 q q0 d).conj := by
+  unfold BWR2legacy bwr2Den BWR Cx.conj
   rw [Gamma2_eq_Gamma L hL m g0 q q0 m0 d hq hq0]
   simp [Cx.mul, Cx.sub, Cx.ofReal, neg_div]
 
-/-- FINDING: negative imaginary part for positive width (the documented propagator has Im > 0) -/
-theorem BWR2_im_neg (L : ℕ) (hL : L ≤ 8) (m m0 g0 q q0 d : ℝ) (hq0 : eps15 < q0) (hq : 0 < q) (hm : 0 < m)
-    (hm0 : 0 < m0) (hg : 0 < g0) : (BWR2 L m m0 g0 (q * q) (q0 * q0) d).im < 0 := by
-  rw [BWR2_eq_conj_BWR L hL m m0 g0 q q0 d hq.le hq0]
+/-- positive imaginary part of `BWR2` for positive width above threshold -/
+theorem BWR2_im_pos (L : ℕ) (hL : L ≤ 8) (m m0 g0 q q0 d : ℝ) (hq0 : eps15 < q0) (hq : 0 < q) (hm : 0 < m)
+    (hm0 : 0 < m0) (hg : 0 < g0) : 0 < (BWR2 L m m0 g0 (q * q) (q0 * q0) d).im := by
+  rw [BWR2_eq_BWR L hL m m0 g0 q q0 d hq.le hq0]
+  exact BWR_im_pos L hL m m0 g0 q q0 d hq0 hq hm hm0 hg
+
+/-- LEGACY: negative imaginary part for positive width (the documented propagator has Im > 0) -/
+theorem BWR2legacy_im_neg (L : ℕ) (hL : L ≤ 8) (m m0 g0 q q0 d : ℝ) (hq0 : eps15 < q0) (hq : 0 < q) (hm : 0 < m)
+    (hm0 : 0 < m0) (hg : 0 < g0) : (BWR2legacy L m m0 g0 (q * q) (q0 * q0) d).im < 0 := by
+  rw [BWR2legacy_eq_conj_BWR L hL m m0 g0 q q0 d hq.le hq0]
   have := BWR_im_pos L hL m m0 g0 q q0 d hq0 hq hm hm0 hg
   simp only [Cx.conj]
   linarith
 
-/-- FINDING: at m = m0 the current `BWR2` gives `-i/(m0 Γ0)`, the patched one `+i/(m0 Γ0)` -/
-theorem BWR2_at_m0 (L : ℕ) (hL : L ≤ 8) (m0 g0 q0 d : ℝ) (hq0 : eps15 < q0) (h : m0 * g0 ≠ 0) :
-    toC (BWR2 L m0 m0 g0 (q0 * q0) (q0 * q0) d) = -(Complex.I / (m0 * g0)) := by
+/-- LEGACY: at m = m0 the old `BWR2` gave `-i/(m0 Γ0)`; the current one gives `+i/(m0 Γ0)` (`BWR2_at_m0`) -/
+theorem BWR2legacy_at_m0 (L : ℕ) (hL : L ≤ 8) (m0 g0 q0 d : ℝ) (hq0 : eps15 < q0) (h : m0 * g0 ≠ 0) :
+    toC (BWR2legacy L m0 m0 g0 (q0 * q0) (q0 * q0) d) = -(Complex.I / (m0 * g0)) := by
   have hq0' : 0 < q0 := lt_trans eps15_pos hq0
-  rw [BWR2_eq_conj_BWR L hL m0 m0 g0 q0 q0 d hq0'.le hq0, toC_conj, BWR_at_m0 L hL m0 g0 q0 d hq0 h]
+  rw [BWR2legacy_eq_conj_BWR L hL m0 m0 g0 q0 q0 d hq0'.le hq0, toC_conj, BWR_at_m0 L hL m0 g0 q0 d hq0 h]
   simp [map_div₀, Complex.conj_I, neg_div]
 
-theorem BWR2fix_at_m0 (L : ℕ) (hL : L ≤ 8) (m0 g0 q0 d : ℝ) (hq0 : eps15 < q0) (h : m0 * g0 ≠ 0) :
-    toC (BWR2fix L m0 m0 g0 (q0 * q0) (q0 * q0) d) = Complex.I / (m0 * g0) := by
+theorem BWR2_at_m0 (L : ℕ) (hL : L ≤ 8) (m0 g0 q0 d : ℝ) (hq0 : eps15 < q0) (h : m0 * g0 ≠ 0) :
+    toC (BWR2 L m0 m0 g0 (q0 * q0) (q0 * q0) d) = Complex.I / (m0 * g0) := by
   have hq0' : 0 < q0 := lt_trans eps15_pos hq0
-  rw [BWR2fix_eq_BWR L hL m0 m0 g0 q0 q0 d hq0'.le hq0, BWR_at_m0 L hL m0 g0 q0 d hq0 h]
+  rw [BWR2_eq_BWR L hL m0 m0 g0 q0 q0 d hq0'.le hq0, BWR_at_m0 L hL m0 g0 q0 d hq0 h]
 
-/-- FINDING, concrete witness replayed on the real function: m = m0 = Γ0 = q² = q0² = 1, L = 0, d = 3:
-the code returns `-i`, the documented value is `+i` -/
-theorem BWR2_ne_spec_witness :
-    toC (BWR2 0 1 1 1 1 1 3) = -Complex.I ∧
+/-- LEGACY, concrete witness (replayed on the real function before a7b0d13): m = m0 = Γ0 = q² = q0² = 1, L = 0, d = 3:
+the old code returned `-i`, the documented value is `+i` -/
+theorem BWR2legacy_ne_spec_witness :
+    toC (BWR2legacy 0 1 1 1 1 1 3) = -Complex.I ∧
     1 / (((1 : ℝ) : ℂ) ^ 2 - ((1 : ℝ) : ℂ) ^ 2 - Complex.I * ((1 : ℝ) : ℂ) * toC (Gamma2 0 1 1 1 1 1 3)) = Complex.I ∧
-    toC (BWR2 0 1 1 1 1 1 3) ≠
+    toC (BWR2legacy 0 1 1 1 1 1 3) ≠
       1 / (((1 : ℝ) : ℂ) ^ 2 - ((1 : ℝ) : ℂ) ^ 2 - Complex.I * ((1 : ℝ) : ℂ) * toC (Gamma2 0 1 1 1 1 1 3)) := by
   have hq0 : eps15 < (1 : ℝ) := by unfold eps15; norm_num
-  have h1 := BWR2_at_m0 0 (by norm_num) 1 1 1 3 hq0 (by norm_num)
-  have h2 := BWR2fix_at_m0 0 (by norm_num) 1 1 1 3 hq0 (by norm_num)
-  rw [BWR2fix_eq_spec] at h2
+  have h1 := BWR2legacy_at_m0 0 (by norm_num) 1 1 1 3 hq0 (by norm_num)
+  have h2 := BWR2_at_m0 0 (by norm_num) 1 1 1 3 hq0 (by norm_num)
+  rw [BWR2_eq_spec] at h2
   simp only [mul_one, Complex.ofReal_one, div_one] at h1 h2
   refine ⟨h1, ?_, ?_⟩
   · simpa using h2
@@ -335,6 +345,7 @@ theorem Gamma2_below (L : ℕ) (m g0 q2 q02 m0 d : ℝ) (hq2 : q2 < 0) (hq02 : 0
   unfold Gamma2 Cx.sqrt Cx.ofReal Cx.mul ksqrt
   simp only [lt_irrefl, if_false, hr, if_true, kpowN_eq]
   congr 1 <;> ring
+
 
 /-! ## BWR_coupling -/
 
@@ -517,6 +528,62 @@ theorem adHoc_eq_doc (m0 mmax mmin : ℝ) (h : mmax ≠ mmin) :
   rw [this]
   ring
 
+/-! ## BWR_below and MultiBWR on top of the `BWR2` core (current tree: `fix = true`) -/
+
+/-- the effective pole mass used for `q0²` by `BWR_below`: the documented ad-hoc formula below threshold, `m0` above -/
+noncomputable def belowMeff (m0 m1 m2 mmax : ℝ) : ℝ :=
+  if m0 < m1 + m2 then
+    (m1 + m2) + (mmax - (m1 + m2)) / 2 * (1 + Real.tanh ((m0 - (mmax + (m1 + m2)) / 2) / (mmax - (m1 + m2))))
+  else m0
+
+theorem belowQ02_eq_doc (m0 m1 m2 mmax : ℝ) (h : mmax ≠ m1 + m2) :
+    belowQ02 m0 m1 m2 mmax = getRelativeP2 (belowMeff m0 m1 m2 mmax) m1 m2 := by
+  unfold belowQ02 belowMeff
+  rw [adHoc_eq_doc _ _ _ h]
+
+/-- `BWR_below`: `1/(m0² - m² - i m0 Γ(m))` with the q²-based (complex) width and `q0² = q²(m0_eff)`,
+`m0_eff` the documented ad-hoc mass; the pole mass in the propagator stays `m0`.  All inputs (also `m0` below threshold). -/
+theorem BWRbelow_eq_spec (L : ℕ) (m m0 g0 q2 m1 m2 mmax d : ℝ) (h : mmax ≠ m1 + m2) :
+    toC (BWRbelow true L m m0 g0 q2 m1 m2 mmax d)
+      = 1 / ((m0 : ℂ) ^ 2 - (m : ℂ) ^ 2
+          - Complex.I * m0 * toC (Gamma2 L m g0 q2 (getRelativeP2 (belowMeff m0 m1 m2 mmax) m1 m2) m0 d)) := by
+  unfold BWRbelow
+  simp only [if_true]
+  rw [BWR2_eq_spec, belowQ02_eq_doc _ _ _ _ h]
+
+/-- LEGACY `BWR_below` (before a7b0d13) was the conjugate -/
+theorem BWRbelow_legacy_eq_conj (L : ℕ) (m m0 g0 q2 m1 m2 mmax d : ℝ) :
+    toC (BWRbelow false L m m0 g0 q2 m1 m2 mmax d) = (starRingEnd ℂ) (toC (BWRbelow true L m m0 g0 q2 m1 m2 mmax d)) := by
+  unfold BWRbelow
+  simp only [if_true, Bool.false_eq_true, if_false]
+  rw [BWR2legacy_eq_conj_spec, BWR2_eq_spec]
+
+/-- `MultiBWR.get_ls_amp`: for every (l,s) entry i the amplitude is
+`(Σ_k 1/(m_k² - m² - i m_k Γ_k(m)) · c_ik) · (q/q0)^{l_i} B'_{l_i}`, all resonances with the smallest l of the list in the
+width; any number of resonances and partial waves -/
+theorem MultiBWR_eq_spec (ls : List ℕ) (res : List (ℝ × ℝ)) (coeff : List (List Cx)) (m q2 q02 d : ℝ) :
+    (MultiBWR true ls res coeff m q2 q02 d).map toC
+      = (coeff.zip ls).map fun cl =>
+          (List.zipWith (fun (r : ℝ × ℝ) (c : Cx) =>
+              1 / ((r.1 : ℂ) ^ 2 - (m : ℂ) ^ 2
+                - Complex.I * r.1 * toC (Gamma2 (ls.foldl Nat.min (ls.headD 0)) m r.2 q2 q02 r.1 d)) * toC c)
+            res cl.1).sum * ((lsBarrier q2 q02 d cl.2 : ℝ) : ℂ) := by
+  unfold MultiBWR
+  simp only [if_true, List.map_map]
+  apply List.map_congr_left
+  intro cl _
+  simp only [Function.comp, toC_mul, toC_ofReal, Cx.sumFrom_eq]
+  congr 1
+  have h0 : toC ⟨0, 0⟩ = 0 := by apply Complex.ext <;> simp
+  rw [h0, zero_add]
+  congr 1
+  exact zipCx_map_toC _ _ _ (fun r => BWR2_eq_spec _ m r.1 r.2 q2 q02 d) _
+
+/-- the list's smallest l is what the code's `min([i[0] for i in ls])` computes -/
+theorem MultiBWR_lmin_le (ls : List ℕ) : ∀ l ∈ ls, ls.foldl Nat.min (ls.headD 0) ≤ l := by
+  intro l hl
+  exact foldl_min_le ls (ls.headD 0) l hl
+
 /-! ## symbolic denominators are reciprocals of the numeric line shapes -/
 
 theorem BW_dom_reciprocal (m m0 g0 : ℝ) (h : m0 * m0 - m * m ≠ 0 ∨ m0 * g0 ≠ 0) :
@@ -571,6 +638,23 @@ theorem BWRLS_dom_eq (fix : Bool) (ls : List ℕ) (hls : ∀ l ∈ ls, l ≤ 8) 
   unfold lsDom BWRLSdom
   simp only [hsum]
   cases fix <;> simp only [Bool.false_eq_true, if_false, if_true] <;> congr 2 <;> ring
+
+
+/-- `ParticleFlatte.get_sympy_dom` / `ParticleFlatteC.get_sympy_dom` with every sheet bit set (momenta not negated,
+principal root below a channel threshold) is the reciprocal of the numeric line shape for every real m > 0,
+above and below the channel thresholds, any number of channels -/
+theorem Flatte_dom_reciprocal (sgn : ℝ) (chs : List (ℝ × ℝ × ℝ)) (m m0 : ℝ) (hm : 0 < m)
+    (h : (FlatteDom sgn chs m m0).re ≠ 0 ∨ (FlatteDom sgn chs m m0).im ≠ 0) :
+    toC (Flatte sgn chs m m0) * toC (FlatteDom sgn chs m m0) = 1 := by
+  have hl : chs.map (flatteTerm m m0)
+      = chs.map fun ch => (symCalMomentum m ch.1 ch.2.1).mul ⟨0, ch.2.2 * (m0 / m)⟩ := by
+    apply List.map_congr_left
+    intro ch _
+    rw [flatteTerm, calMomentum_eq_sym _ _ _ hm]
+  unfold Flatte
+  unfold FlatteDom at h ⊢
+  simp only [hl] at h ⊢
+  exact recip_mul' _ _ h
 
 theorem BWRcoupling_dom_reciprocal (f32 : Bool) (L : ℕ) (hL : L ≤ 8) (m m0 g0 m1 m2 d : ℝ) (hm : m1 + m2 < m)
     (hmpos : 0 < m)
